@@ -437,10 +437,10 @@ pub fn enumerate_fields(acc: &mut Acc) -> Option<(Failure, serde_json::Value)> {
             }
         }
         // pairs among the fields that enter the layout arithmetic
-        let inter: Vec<&(u8, u16, u8, &str)> = FIELDS.iter().filter(|f| f.0 == 1 && f.1 != 510 && f.1 != 42).collect();
+        let inter: Vec<&(u8, u16, u8, &str)> = FIELDS.iter().filter(|f| (f.0 == 1 && f.1 != 510 && f.1 != 42) || (f.0 == 0 && (f.1 == 454 || f.1 == 458))).collect();
         for a in &inter {
             for b in &inter {
-                if a.1 >= b.1 {
+                if (a.0, a.1) >= (b.0, b.1) {
                     continue;
                 }
                 for va in vals(a.2) {
